@@ -61,6 +61,8 @@ fn c03_next_m_cell_contract() {
     let b: u16 = kani::any();
     let m = any_cell();
     let r = next_m_cell(p, b, m);
+    // the `ensures` exists only under cfg(kani); stated again so that CBMC's counterexample replays natively
+    assert!(next_m_cell_post(p, b, m, &r), "next_m_cell: README recurrence, M-matrix step (score, matched flag, carried bonus)");
     kani::cover!(r.matched);
 }
 
@@ -69,6 +71,8 @@ fn c03_p_score_contract() {
     let a: u16 = kani::any();
     let b: u16 = kani::any();
     let r = p_score(a, b);
+    // the `ensures` exists only under cfg(kani); stated again so that CBMC's counterexample replays natively
+    assert!(p_score_post(a, b, &r), "p_score: README recurrence, P-matrix step (score and came-from-M flag)");
     kani::cover!(r.1);
 }
 
